@@ -33,6 +33,8 @@ class Gen:
             choices+=['bin']*4+['logical','unary','cond']
             if any(k!='const' for n,k in sc['names']): choices+=['assign','update','lassignv']
             if getattr(self,'objects',False) and vars_: choices+=['lassignm']
+            if sc.get('classes') and getattr(self,'objects',False): choices+=['newcls']*3+['instanceof','clsstatic']
+            if sc.get('inderived_method'): choices+=['supermcall']*2
             if getattr(self,'ext2',True):
                 choices+=['tmpl']
                 if vars_: choices+=['cassignv']
@@ -64,7 +66,7 @@ class Gen:
                     vals.append(b.add(ty='func', params=params, body=body, name='', arrow=r.choice([0,0,1])))
                 else: vals.append(self.expr(sc,d-1))
             return b.add(ty='objlit', keys=[cs(x) for x in ks], vals=vals)
-        if c=='member': return b.add(ty='member', a=self.expr(sc,d-1), key=cs(r.choice(KEYS)))
+        if c=='member': return b.add(ty='member', a=self.expr(sc,d-1), key=cs(r.choice(KEYS+(['f1','f2','m1'] if sc.get('classes') else []))))
         if c=='index': return b.add(ty='index', a=self.expr(sc,d-1), b=self.expr(sc,d-1))
         if c=='setmember':
             base=b.add(ty='var', name=r.choice(vars_)) if vars_ else self.expr(sc,d-1)
@@ -74,7 +76,7 @@ class Gen:
             return b.add(ty='setindex', a=base, b=b.add(ty='num', v=r.choice([0,1,2])) if r.random()<0.7 else self.expr(sc,d-1), c=self.expr(sc,d-1))
         if c=='mcall':
             base=b.add(ty='var', name=r.choice(vars_)) if vars_ else self.expr(sc,d-1)
-            return b.add(ty='mcall', a=base, key=cs(r.choice(KEYS[:5])), args=[self.expr(sc,d-1) for _ in range(r.choice([0,1]))])
+            return b.add(ty='mcall', a=base, key=cs(r.choice(KEYS[:5]+(['m1','m1','m2'] if sc.get('classes') else []))), args=[self.expr(sc,d-1) for _ in range(r.choice([0,1]))])
         if c=='this': return b.add(ty='this')
         if c=='lit': return self.lit()
         if c=='var':
@@ -100,6 +102,18 @@ class Gen:
         if c=='lassignv':
             n=r.choice([n for n,k in sc['names'] if k!='const'])
             return b.add(ty='lassignv', op=r.choice(['||=','&&=','??=','??=']), name=n, a=self.expr(sc,d-1))
+        if c=='newcls':
+            cn,ar=r.choice(sc['classes'])
+            return b.add(ty='new', f=b.add(ty='var', name=cn), args=[self.expr(sc,d-1) for _ in range(r.choice([ar,ar,max(0,ar-1)]))])
+        if c=='instanceof':
+            cn,ar=r.choice(sc['classes'])
+            return b.add(ty='bin', op='instanceof', a=self.expr(sc,d-1), b=b.add(ty='var', name=cn) if r.random()<0.9 else self.expr(sc,d-1))
+        if c=='clsstatic':
+            cn,ar=r.choice(sc['classes'])
+            if r.random()<0.5: return b.add(ty='member', a=b.add(ty='var', name=cn), key=cs(r.choice(['s1','s2','sm1','a'])))
+            return b.add(ty='mcall', a=b.add(ty='var', name=cn), key=cs(r.choice(['sm1','sm1','s1','m1'])), args=[self.expr(sc,d-1) for _ in range(r.choice([0,1]))])
+        if c=='supermcall':
+            return b.add(ty='supermcall', key=cs(r.choice(['m1','m2'])), args=[self.expr(sc,d-1) for _ in range(r.choice([0,1]))])
         if c=='cassignv':
             n=r.choice([n for n,k in sc['names'] if k!='const'] if (r.random()<0.93 and any(k!='const' for n,k in sc['names'])) else vars_)
             return b.add(ty='cassignv', op=r.choice(['+','+','-','*','%']), name=n, a=self.expr(sc,d-1))
@@ -146,13 +160,14 @@ class Gen:
         for i,p in enumerate(params):
             if getattr(self,'param_defaults',True) and self.r.random()<0.3:
                 inner=dict(sc); inner=self.child(sc); inner['names']=[(n,k) for n,k in sc['names'] if n not in params]+[(q,'let') for q in params[:i]]
-                inner['funcs']=[]; inner['gvars']=[]; inner['ingen']=False
+                inner['funcs']=[]; inner['gvars']=[]; inner['ingen']=False; inner['inderived_method']=False
                 save=(getattr(self,'orders',False)); self.orders=False
                 out.append(self.expr(inner,1)); self.orders=save
             else: out.append(0)
         return out
     def funcbody(self, sc, params, d):
-        inner=dict(names=[(n,k) for n,k in sc['names'] if n not in params]+[(p,'let') for p in params], own=list(params), nested=True, funcs=list(sc['funcs']), inloop=False, labels=[], infunc=True, ingen=getattr(self,'_next_is_gen',False), gvars=list(sc.get('gvars',[])), gfuncs=list(sc.get('gfuncs',[])))
+        inner=dict(classes=list(sc.get('classes',[])), names=[(n,k) for n,k in sc['names'] if n not in params]+[(p,'let') for p in params], own=list(params), nested=True, funcs=list(sc['funcs']), inloop=False, labels=[], infunc=True, ingen=getattr(self,'_next_is_gen',False), gvars=list(sc.get('gvars',[])), gfuncs=list(sc.get('gfuncs',[])))
+        inner['inderived_method']=bool(getattr(self,'_method_ctx',False)); self._method_ctx=False      # super.m() only directly in a method of a derived class
         concise=getattr(self,'_next_concise',False); self._next_concise=False
         if concise and not inner['ingen']:
             self._next_is_gen=False
@@ -161,6 +176,57 @@ class Gen:
         xs=self.stmts(inner, d, self.r.randint(1,3))
         if self.r.random()<0.7: xs.append(self.b.add(ty='return', a=self.expr(inner,1)))
         return self.b.add(ty='block', xs=xs)
+    def classdecl(self, sc, d):
+        """class C [extends P] { fields; static fields; constructor; methods; static methods }"""
+        r=self.r; b=self.b
+        name=self.fresh('C')
+        parent=''
+        if sc.get('classes') and r.random()<0.55: parent=r.choice(sc['classes'])[0]
+        elif r.random()<0.04 and sc['names']: parent=r.choice([n for n,k in sc['names']])       # heritage that is (usually) not a constructor
+        derived=bool(parent)
+        # instance fields: initialisers may read `this` (earlier fields, inherited state)
+        fkeys=[]; finit=[]
+        fsc=self.child(sc, inloop=False, inswitch=False, labels=[], looplabels=[]); fsc['infunc']=True; fsc['funcs']=[]
+        for kname in r.sample(['f1','f2','a','b'], r.choice([0,1,2])):
+            fkeys.append(cs(kname)); finit.append(self.expr(fsc,1) if r.random()<0.8 else 0)
+        # static fields: evaluated once, at the declaration
+        skeys=[]; sinit=[]
+        ssc=self.child(sc, inloop=False, inswitch=False, labels=[], looplabels=[]); ssc['infunc']=False; ssc['funcs']=[]
+        for kname in r.sample(['s1','s2'], r.choice([0,0,1,2])):
+            skeys.append(cs(kname)); sinit.append(self.expr(ssc,1))
+        # constructor
+        hasctor=1 if r.random()<0.7 else 0
+        params=[]; body=0
+        if hasctor:
+            params=[self.fresh('p') for _ in range(r.choice([0,1,2]))]
+            inner=dict(classes=list(sc.get('classes',[])), names=[(n,k) for n,k in sc['names'] if n not in params]+[(p,'let') for p in params], own=list(params), nested=True, funcs=list(sc['funcs']), inloop=False, labels=[], infunc=True, ingen=False, gvars=[], gfuncs=[])
+            xs=[]
+            if derived:
+                pa=dict(sc.get('classes',[])).get(parent, 0)
+                sup=b.add(ty='exprstmt', a=b.add(ty='supercall', args=[self.expr(dict(inner, infunc=False),1) for _ in range(pa)]))
+                xs.append(sup)
+            for kname in r.sample(['f1','f2','k1'], r.choice([0,1,2])):
+                xs.append(b.add(ty='exprstmt', a=b.add(ty='setmember', a=b.add(ty='this'), key=cs(kname), c=self.expr(inner,1))))
+            inner['noreturn']=True
+            xs+=[x for x in self.stmts(inner, max(0,d-2), r.randint(0,2))]
+            body=b.add(ty='block', xs=xs)
+        # methods
+        mkeys=[]; mfuncs=[]; smkeys=[]; smfuncs=[]
+        for kname in r.sample(['m1','m2'], r.choice([0,1,1,2])):
+            ps=[self.fresh('p') for _ in range(r.choice([0,1]))]
+            msc=dict(sc); msc=self.child(sc); msc['inderived_method']=derived
+            self._method_ctx=derived
+            fb=self.funcbody(msc, ps, max(0,d-1))
+            mkeys.append(cs(kname)); mfuncs.append(b.add(ty='func', params=ps, body=fb, name=kname, arrow=0, defs=[0]*len(ps), gen=0))
+        for kname in r.sample(['sm1'], r.choice([0,0,1])):
+            ps=[self.fresh('p') for _ in range(r.choice([0,1]))]
+            fb=self.funcbody(self.child(sc), ps, max(0,d-1))
+            smkeys.append(cs(kname)); smfuncs.append(b.add(ty='func', params=ps, body=fb, name=kname, arrow=0, defs=[0]*len(ps), gen=0))
+        node=b.add(ty='classdecl', name=name, parent=parent, params=params, defs=[0]*len(params), body=body, hasctor=hasctor,
+                   fkeys=fkeys, finit=finit, skeys=skeys, sinit=sinit, mkeys=mkeys, mfuncs=mfuncs, smkeys=smkeys, smfuncs=smfuncs)
+        self.bind(sc, name, 'let')
+        sc.setdefault('classes',[]).append((name, len(params) if hasctor else (dict(sc.get('classes',[])).get(parent,0) if derived else 0)))
+        return node
     def forloop(self, sc, d, label):
         """for (init; test; update) body: let in the head (a fresh copy of the binding per iteration, observable through
         closures), var / expression / empty head, missing test (the body breaks), missing update (the body counts)"""
@@ -227,13 +293,14 @@ class Gen:
     def child(self, sc, **kw):
         c=dict(names=list(sc['names']), funcs=list(sc['funcs']), inloop=sc['inloop'], labels=list(sc['labels']), infunc=sc['infunc'], ingen=sc.get('ingen',False), gvars=list(sc.get('gvars',[])), gfuncs=list(sc.get('gfuncs',[])))
         c['own']=[]; c['nested']=True
-        c['inswitch']=sc.get('inswitch',False); c['looplabels']=list(sc.get('looplabels',[]))
+        c['noreturn']=sc.get('noreturn',False); c['inderived_method']=sc.get('inderived_method',False) and not sc.get('_fnboundary'); c['inswitch']=sc.get('inswitch',False); c['looplabels']=list(sc.get('looplabels',[])); c['classes']=list(sc.get('classes',[]))
         c.update(kw); return c
     def stmt(self, sc, d):
         r=self.r; b=self.b
         if len(b.nodes) > self.limit: d=0
         ch=['log']*4+['decl']*3+['expr']*2
         if getattr(self,'ext2',True) and getattr(self,'objects',False): ch+=['ddecl']
+        if d>0 and getattr(self,'classes',True) and getattr(self,'objects',False) and not sc.get('ingen') and not getattr(self,'orders',False): ch+=['classdecl']*2
         if d>0: ch+=['if']*2+['while']*2+['block','try','try','funcdecl','labeled','dowhile']
         if d>0 and getattr(self,'forswitch',True): ch+=['for']*2+['switch']*2+['lloop']
         if d>0 and getattr(self,'objects',False): ch+=['forof']*2
@@ -243,7 +310,7 @@ class Gen:
         elif sc.get('inswitch'): ch+=['break']
         if sc['labels']: ch+=['lbreak']
         if sc.get('looplabels'): ch+=['lcontinue']*2
-        if sc['infunc']: ch+=['return']
+        if sc['infunc'] and not sc.get('noreturn'): ch+=['return']
         ch+=['throw']
         c=r.choice(ch)
         if c=='log': return b.add(ty='log', a=self.expr(sc,2))
@@ -258,6 +325,7 @@ class Gen:
             n=b.add(ty='decl', kind=kind, name=name, a=init)
             self.bind(sc, name, kind)
             return n
+        if c=='classdecl': return self.classdecl(sc, d)
         if c=='ddecl':
             kind=r.choice(['let','let','const','var'])
             shape=r.choice(['arr','obj'])
@@ -445,6 +513,8 @@ def pr(P, n, ind=0):
     if t=='typeofvar': return f"(typeof {d['name']})"
     if t=='assign': return f"({d['name']} = {E(d['a'])})"
     if t=='lassignv': return f"({d['name']} {d['op']} {E(d['a'])})"
+    if t=='supercall': return f"super({', '.join(E(a) for a in d['args'])})"
+    if t=='supermcall': return f"super.{''.join(chr(c) for c in d['key'])}({', '.join(E(a) for a in d['args'])})"
     if t=='cassignv': return f"({d['name']} {d['op']}= {E(d['a'])})"
     if t=='cassignm': return f"(({E(d['a'])})[{json.dumps(''.join(chr(c) for c in d['key']))}] {d['op']}= {E(d['c'])})"
     if t=='tmpl':
@@ -525,6 +595,18 @@ def pr(P, n, ind=0):
         s=f"{I}if ({E(d['a'])}) {pr(P,d['b'],ind)}"
         if d['c']: s+=f" else {pr(P,d['c'],ind)}"
         return s+"\n"
+    if t=='classdecl':
+        KS=lambda codes: ''.join(chr(c) for c in codes)
+        def meth(key, fn, static):
+            fd=P['nodes'][fn-1]
+            return f"{I}  {'static ' if static else ''}{KS(key)}({', '.join(fd['params'])}) {pr(P,fd['body'],ind+1)}\n"
+        out=f"{I}class {d['name']}{' extends '+d['parent'] if d['parent'] else ''} {{\n"
+        for k,v in zip(d['fkeys'],d['finit']): out+=f"{I}  {KS(k)}{' = '+E(v) if v else ''};\n"
+        for k,v in zip(d['skeys'],d['sinit']): out+=f"{I}  static {KS(k)} = {E(v)};\n"
+        if d['hasctor']: out+=f"{I}  constructor({', '.join(d['params'])}) {pr(P,d['body'],ind+1)}\n"
+        for k,fn in zip(d['mkeys'],d['mfuncs']): out+=meth(k,fn,False)
+        for k,fn in zip(d['smkeys'],d['smfuncs']): out+=meth(k,fn,True)
+        return out+f"{I}}}\n"
     if t=='ddecl':
         parts=[]
         for j,nm in enumerate(d['names']):
